@@ -39,24 +39,29 @@ type triple struct {
 	UseRef bool `json:"-"`
 }
 
+// sharedPK models a caller that keeps ONE public-key array and overwrites it in place between verifications.
+var sharedPK = new([dilithium.CryptoPublicKeyBytes]byte)
+
 func judge(r *ev.Recorder, c *triple) (string, string) {
 	var sig [dilithium.CryptoBytes]byte
-	var pk [dilithium.CryptoPublicKeyBytes]byte
+	pkp := sharedPK
 	copy(sig[:], c.Sig)
-	copy(pk[:], c.PK)
+	copy(pkp[:], c.PK)
+	pk := *pkp
+	_ = pk
 	msg0, pk0 := append([]byte{}, c.Msg...), pk
 	var lib bool
-	if o := ev.Try(func() { lib = dilithium.Verify(c.Msg, sig, &pk) }); o.Panicked {
+	if o := ev.Try(func() { lib = dilithium.Verify(c.Msg, sig, pkp) }); o.Panicked {
 		return c.Class + "/verify-panics", fmt.Sprintf("%s: Verify raised %s", c.Detail, o)
 	}
 	sm := append(append([]byte{}, c.Sig...), c.Msg...)
 	sm0 := append([]byte{}, sm...)
 	var opened []byte
-	if o := ev.Try(func() { opened = dilithium.Open(sm, &pk) }); o.Panicked {
+	if o := ev.Try(func() { opened = dilithium.Open(sm, pkp) }); o.Panicked {
 		return c.Class + "/open-panics", fmt.Sprintf("%s: Open raised %s", c.Detail, o)
 	}
 	r.Eval(1)
-	if !bytes.Equal(msg0, c.Msg) || pk0 != pk || !bytes.Equal(sm0, sm) {
+	if !bytes.Equal(msg0, c.Msg) || pk0 != *pkp || !bytes.Equal(sm0, sm) {
 		return c.Class + "/input-modified", c.Detail + ": Verify/Open modified an input buffer"
 	}
 	if lib {
